@@ -215,12 +215,36 @@ class Class:
         return f"<Class {self.qualname}>"
 
 
+class _Canon(ast.NodeTransformer):
+    """Behaviour-preserving canonicalisation applied to every parsed module so
+    that rules see one idiom instead of several: `x = x + c` / `x = x - c`
+    become `x += c` / `x -= c`."""
+
+    def visit_Assign(self, node):
+        self.generic_visit(node)
+        if len(node.targets) == 1 and isinstance(node.value, ast.BinOp) and isinstance(node.value.op, (ast.Add, ast.Sub)) \
+                and isinstance(node.targets[0], (ast.Name, ast.Attribute, ast.Subscript)) \
+                and ast.dump(_as_load(node.targets[0])) == ast.dump(node.value.left):
+            new = ast.AugAssign(target=node.targets[0], op=node.value.op, value=node.value.right)
+            return ast.copy_location(new, node)
+        return node
+
+
+def _as_load(t):
+    import copy
+    t2 = copy.deepcopy(t)
+    for n in ast.walk(t2):
+        if hasattr(n, "ctx"):
+            n.ctx = ast.Load()
+    return t2
+
+
 class Module:
     def __init__(self, name, path, source):
         self.name = name
         self.path = path
         self.source = source
-        self.tree = ast.parse(source, filename=path)
+        self.tree = ast.fix_missing_locations(_Canon().visit(ast.parse(source, filename=path)))
         self.digest = hashlib.sha256(source.encode()).hexdigest()[:16]
         self.is_pkg = path.endswith("__init__.py")
         self.body_func = None
